@@ -172,6 +172,26 @@ fn heap_expand_h<T: 'static>() {
     kani::cover!(true, "REACHED");
 }
 
+/// expand_exact(additional) from any valid size (the provided method of `MemResizable`; an override in
+/// `HeapMem` would be new code outside the `resize` contract): grows by exactly `additional`, through the
+/// allocator protocol with the element layout
+fn heap_expand_exact_h<T: 'static>() {
+    am_reset();
+    let mut m = Heap.build(Layout::new::<T>());
+    let a: usize = kani::any();
+    kani::assume(fits::<T>(a));
+    m.resize(a);
+    let add: usize = kani::any();
+    kani::assume(a <= usize::MAX - add && fits::<T>(a + add));
+    m.expand_exact(add);
+    kani::assert(m.size() == a + add, "HeapMem::expand_exact grows by exactly `additional`");
+    check_state::<T>(&m, a + add);
+    core::mem::forget(m);
+    kani::cover!(a == 0 && add > 0, "COV first allocation");
+    kani::cover!(a > 0 && add > 0, "COV growth of an existing block");
+    kani::cover!(true, "REACHED");
+}
+
 /// expand whose request is not representable / not a valid layout cannot return, and not through an overflow check
 fn heap_expand_invalid_h<T: 'static>() {
     am_reset();
